@@ -136,6 +136,16 @@ def check(R):
                  bool(dup_edges) and bool(excl) and not bad, 'Duplicate arm -> with_state(write ack) on every remaining path',
                  f'from the Duplicate arm at {bad} the function can return without re-acknowledging (dup_edges={sorted(dup_edges)})')
 
+        # ... which presupposes that a duplicate IS classified Duplicate: in Session::post_recv the window test comes first - the other
+        # refusals (NoExchange for a closed exchange, NoSession for an expired session) are reachable only on its `new message` edge
+        sp = R.body('transport::session::Session::post_recv')
+        win = sp.calls('transport::dedup::RxCtrState::post_recv')
+        R.floor('RxCtrState::post_recv in Session::post_recv', len(win), 1)
+        other = sorted({i for i, j, st in sp.stmts() if st[1].get('op') == 'agg' and st[1].get('adt') == 'error::ErrorCode' and st[1].get('var') in ('NoExchange', 'NoSession') and not sp.is_cleanup(i)})
+        R.floor('NoExchange / NoSession refusals in Session::post_recv', len(other), 1)
+        R.cut('P2', sp, 'refuse the message as NoExchange / NoSession', other, 'the counter window accepted it as new (a duplicate is answered Duplicate -> re-acknowledged, whatever became of its exchange)',
+              lambda: prims.track_result(F, sp, win[0]).success)
+
     # ---- d --------------------------------------------------------------------
     with R.clause('d'):
         # "retransmissions are never sent earlier than the protocol's back-off": ExchangeId::wait_tx waits on (ack, any-session-removed,
@@ -160,6 +170,34 @@ def check(R):
                 raise GuardMissing(f'{wt.fn}: the result of select3 is not inspected')
             return other
         R.cut('P2', wt, 'answer Retransmit', retr, 'the wait ended by the ack notification or by the back-off timer, not by the removal of some session (select3 result is not Either3::Second)', not_second)
+
+        # ... and the back-off is computed from the peer's interval at full width: no integer cast in the retransmission entry loses bits
+        # (an interval of 65 836 ms truncated to 16 bits becomes 300 ms)
+        import p7
+        reb = [b for b in F.bodies.values() if b.focus and b.fn.startswith(RE + '::') and '::tests::' not in b.fn]
+        R.floor('RetransEntry bodies', len(reb), 5)
+        nc = 0
+        for b in sorted(reb, key=lambda b: b.fn):
+            for i, j_, st in b.stmts():
+                rv = st[1]
+                if rv.get('op') != 'cast' or rv.get('ck') != 'IntToInt' or b.is_cleanup(i):
+                    continue
+                dt = b.local_ty(st[0][0]) if len(st[0]) == 1 else None
+                if dt is None and len(st[0]) > 1:
+                    # a cast stored straight into a struct field: the field's declared width
+                    fld = [x for x in st[0][1:] if isinstance(x, str) and x.startswith('.')]
+                    adt = F.adt(fld[-1].split(':', 1)[1]) if fld and ':' in fld[-1] else None
+                    if adt:
+                        dt = next((f['ty'] for v in adt['variants'] for f in v['fields'] if f['n'] == fld[-1][1:].split(':')[0]), None)
+                if dt not in p7.INT_BITS:
+                    continue
+                nc += 1
+                need = p7.max_bits(b, rv['a'][0]) or p7._ty_bits(b, rv['a'][0]) or 128
+                R.expect('P6', b.fn, f'integer cast ({p7.expr_key(b, rv["a"][0])} as {dt}) keeps every bit', need <= p7.INT_BITS[dt], f'{need} bits into {dt}',
+                         f'{p7.expr_key(b, rv["a"][0])} ({need} bits) is truncated to {dt}: the back-off no longer is the protocol\'s', b.where(i, j_))
+        R.floor('integer casts in the back-off computation', nc, 2)
+        flds = {f['n']: f['ty'] for f in F.adt(RE)['variants'][0]['fields']}
+        R.expect('P6', RE, 'the back-off base interval is stored at least at the width it is negotiated in (32-bit milliseconds)', p7.INT_BITS.get(flds.get('base_delay_interval_ms'), 0) >= 32, f'{flds.get("base_delay_interval_ms")}', f'{flds.get("base_delay_interval_ms")}: narrower than the 32-bit session parameter')
 
 
 def _succ(R, body, sites):
